@@ -1082,6 +1082,14 @@ def disagreements(vs, resp):
     return bad
 
 
+def reductions(e):
+    """smaller candidates: the sub-expressions, and for a comparison chain the chains with one link less"""
+    out = list(kids(e)[0])
+    if e[0] == "cmp" and len(e[2]) > 2:
+        out = [("cmp", e[1], e[2][:-1]), ("cmp", e[2][0][1], e[2][1:])] + out
+    return out
+
+
 def shrink(e, mode, release):
     """greedy descent to a smallest failing sub-expression, then to one failing variant"""
     def failing(x):
@@ -1099,7 +1107,7 @@ def shrink(e, mode, release):
     progress = True
     while progress and budget > 0:
         progress = False
-        for k in kids(cur)[0]:
+        for k in reductions(cur):
             budget -= 1
             inf2 = failing(k)
             if inf2 is not None:
@@ -1394,6 +1402,8 @@ def main():
                 elif not rel and which == 0:
                     hist["partC_folded" if folded else "partC_runtime"] += 1
                     hist["partC_eval_ok" if "ok" in ev else "partC_eval_err"] += 1
+                    if any(x[0] == "map" or x == ("var", "cm") for x in subexprs(e)):
+                        hist["partC_with_maps"] += 1
     # kernel cross-check of the extraction
     small = sorted(range(len(cases)), key=lambda i: (len(cases[i]), max(abs(x) for x in cases[i])))[:16]
     kern = kernel_eval("run", [cases[i] for i in small], "k_C04", imports="Common.Base C04.Runner") if cases else []
